@@ -163,7 +163,7 @@ def run(rep, scratch, tier, seed, replay=None):
                     break
         if not found:
             rep.violation("obligation", "the generated lock obligation of C04 no longer checks (coq/obligations/ObC04.v against the skeletons of the working tree); the race stress found no failing schedule",
-                          {"broken": "C04_locks : well_locked_all policy_C04 funs skeletons_C04 = true", "coqc_output": ob["output"][-2500:],
+                          {"broken": "C04_locks : well_locked_all policy_C04 funs skeletons_C04 = true", "unknown_to_policy": ob.get("unknown_to_policy", ""), "coqc_output": ob["output"][-2500:],
                            "facts": "regenerate with tools/lockskel <repo> LockFacts.v"}, no_input=True)
         return
     dynamic(rep, scratch, tier, seed)
